@@ -1,5 +1,6 @@
 // C05 — ARP, neighbour discovery and echo are answered correctly, and only those.
 
+use crate::vf::shadow::{shadow_opt, with_shadow, Shadow};
 use proptest::collection::vec;
 use proptest::prelude::*;
 use serde::{Deserialize, Serialize};
@@ -40,6 +41,9 @@ pub struct Case {
     /// IP header fields the responder is not documented to look at
     #[serde(default)]
     pub ip_tweak: Option<IpTweak>,
+    /// sibling traffic sent before every frame of the case (vf/shadow.rs)
+    #[serde(default)]
+    pub shadow: Option<Shadow>,
 }
 
 fn op_strategy() -> impl Strategy<Value = u16> {
@@ -62,6 +66,13 @@ fn rest() -> impl Strategy<Value = Hex> {
 }
 
 pub fn case_strategy() -> impl Strategy<Value = Case> {
+    (case_strategy0(), shadow_opt()).prop_map(|(mut c, sh)| {
+        c.shadow = sh;
+        c
+    })
+}
+
+fn case_strategy0() -> impl Strategy<Value = Case> {
     // built once per family (building strategies is not free) and cloned per case
     let build = |v4: bool| -> BoxedStrategy<Msg> {
         let icmp = (icmp_type(v4), prop_oneof![5 => Just(0u8), 1 => Just(1u8), 1 => Just(255u8), 1 => any::<u8>()], rest(), prop_oneof![4 => Just(0u8), 1 => 1u8..20]).prop_map(|(typ, code, rest, pad)| Msg::Icmp { typ, code, rest, pad });
@@ -81,7 +92,7 @@ pub fn case_strategy() -> impl Strategy<Value = Case> {
     let tw = prop::option::weighted(0.25, crate::vf::props::c03::ip_tweak()).boxed();
     scenario_quiet(Fam::Any).prop_flat_map(move |scn| {
         let m = if scn.net.is_v4() { m4.clone() } else { m6.clone() };
-        (Just(scn), m, opts.clone(), tw.clone()).prop_map(|(scn, msg, ip4_opts, ip_tweak)| Case { scn, msg, ip4_opts, ip_tweak })
+        (Just(scn), m, opts.clone(), tw.clone()).prop_map(|(scn, msg, ip4_opts, ip_tweak)| Case { shadow: None, scn, msg, ip4_opts, ip_tweak })
     })
 }
 
@@ -99,6 +110,10 @@ fn v6o(ip: &IpAddr) -> [u8; 16] {
 }
 
 pub fn check(c: &Case, st: &mut Stats) -> Check {
+    with_shadow(&c.shadow, st, |st| check0(c, st))
+}
+
+fn check0(c: &Case, st: &mut Stats) -> Check {
     Sut::reset();
     st.eval();
     st.frames(1);
